@@ -325,7 +325,7 @@ Definition dec_item (j : J) : option ditem :=
 Definition dec_op (j : J) : option dop :=
   match j with
   | JL [t; b; k; JL recs] =>
-      if jtag_is "w" t then
+      if jtag_is "w" t || jtag_is "wo" t then
         match jstr b, jstr k with Some b', Some k' => Some (DW b' k' recs) | _, _ => None end
       else None
   | JL [t; b; k; JI c; JL items] =>
@@ -758,7 +758,7 @@ Definition check_wide (input output : J) : verdict :=
             let exp_firsts := if w =? 0 then 0 else 97 * n + 325 * (n / 26) + r * (r - 1) / 2 in
             let prop := (0 <=? n) && (0 <=? w) && (nw =? n) && (nb =? n) &&
                         (sum =? n * (n - 1) / 2) && consec && (total =? n * w) && same &&
-                        ((negb (mode =? 0)) || (firsts =? exp_firsts)) in
+                        ((mode =? 1) || (firsts =? exp_firsts)) in
             ok_verdict (prop && (sig =? codec_id (writer_codec key))) prop
           else malformed
       | None => malformed
